@@ -499,7 +499,8 @@ class World:
             path = os.path.join(REPO, m['file'])
             text = open(path).read()
             # strip comments
-            text_nc = re.sub(r'//[^\n]*', lambda mm: ' ' * len(mm.group(0)), text)
+            text_nc = re.sub(r'/\*.*?\*/', lambda mm: re.sub(r'[^\n]', ' ', mm.group(0)), text, flags=re.S)
+            text_nc = re.sub(r'//[^\n]*', lambda mm: ' ' * len(mm.group(0)), text_nc)
             for mm in re.finditer(r'\b(' + kinds + r')\s*(?:::\s*<[^;{}]*?>)?\s*::\s*new\s*\(', text_nc):
                 # balanced argument list
                 i = mm.end()
